@@ -810,3 +810,65 @@ pub fn pick_inputs(
         numbers(manifest.get_parent_level_files()),
     ))
 }
+
+/// Apply a sequence of version edits to a base version with the real `VersionBuilder` (one
+/// builder for all edits, as recovery does). An edit is `(deleted (level, number), added (level,
+/// file))`. Returns the file numbers per level of the resulting version in its own order, or the
+/// panic message when the builder's overlap assertion fires.
+pub fn builder_apply(
+    options: &crate::DbOptions,
+    base: &[Vec<FileDump>],
+    edits: &[(Vec<(usize, u64)>, Vec<(usize, FileDump)>)],
+) -> Result<Vec<Vec<u64>>, String> {
+    use crate::versioning::file_metadata::FileMetadata;
+    let table_cache = Arc::new(crate::table_cache::TableCache::new(options.clone(), 10));
+    let mut version = crate::versioning::version::Version::new(options.clone(), &table_cache, 0, 0);
+    for (idx, files) in base.iter().enumerate().take(crate::config::MAX_NUM_LEVELS) {
+        for file in files {
+            let mut meta = FileMetadata::new(file.number);
+            meta.set_file_size(file.size);
+            meta.set_smallest_key(Some(to_internal_key(&file.smallest)?));
+            meta.set_largest_key(Some(to_internal_key(&file.largest)?));
+            version.files[idx].push(Arc::new(meta));
+        }
+    }
+    let mut manifests = vec![];
+    for (deleted, added) in edits {
+        let mut manifest = crate::versioning::VersionChangeManifest::default();
+        for (level, number) in deleted {
+            manifest.remove_file(*level, *number);
+        }
+        for (level, file) in added {
+            manifest.add_file(
+                *level,
+                file.number,
+                file.size,
+                to_internal_key(&file.smallest)?..to_internal_key(&file.largest)?,
+            );
+        }
+        manifests.push(manifest);
+    }
+    let mut list = crate::utils::linked_list::LinkedList::new();
+    let node = list.push(version);
+    let result = std::panic::catch_unwind(std::panic::AssertUnwindSafe(|| {
+        let mut builder = crate::versioning::version_builder::VersionBuilder::new();
+        for manifest in &manifests {
+            builder.accumulate_changes(manifest);
+        }
+        let mut pointers: [Option<crate::key::InternalKey>; crate::config::MAX_NUM_LEVELS] =
+            Default::default();
+        let new_version = builder.apply_changes(&node, 0, 0, &mut pointers);
+        new_version
+            .files
+            .iter()
+            .map(|level| level.iter().map(|file| file.file_number()).collect::<Vec<u64>>())
+            .collect::<Vec<Vec<u64>>>()
+    }));
+    result.map_err(|panic| {
+        panic
+            .downcast_ref::<String>()
+            .cloned()
+            .or_else(|| panic.downcast_ref::<&str>().map(|s| s.to_string()))
+            .unwrap_or_else(|| "panic".to_string())
+    })
+}
